@@ -32,7 +32,7 @@ manifest = {
     "setup_cmd": "./check build",
     "hooks": {
         "guard": "verif",
-        "enable": "go1.26.8 test -c -tags verif (the harness module /verif/sim replaces github.com/cbehopkins/gkvlite with /repo's working tree)",
+        "enable": "go1.26.8 test -c -tags verif -overlay <generated> (the harness module /verif/sim replaces github.com/cbehopkins/gkvlite with /repo's working tree; the overlay, built by ./check from that working tree on every invocation, only spells the type sync.Mutex as verifMutex in the package's non-test files so that lock events reach VerifLockHook; /repo itself is not modified)",
         "baseline_off_cmd": "cd /repo && GOFLAGS=-mod=mod GOPROXY=off go test -json -vet=off -count=1 -timeout 25m ./...",
         "source_commits": hook_shas,
         "add_only": True,
